@@ -117,6 +117,60 @@ pub fn rotation(sp: &SpecP, cfg: &CfgP) -> Option<(Criterion, Naming, Cleanup)> 
 static CRLF: std::sync::atomic::AtomicBool = std::sync::atomic::AtomicBool::new(false);
 fn crlf() -> bool { CRLF.load(std::sync::atomic::Ordering::SeqCst) }
 
+/// what the harness sees of the cleanup thread's protocol (adversarial schedules, where the two
+/// threads never run at the same time): R = a new rotated file appeared, K = a message without a
+/// new file, T = the thread took a message (and lists the directory), X = one file operation of
+/// the thread; `ops` = which file each X removed (`r<rank>`) or compressed (`c<rank>`), the rank
+/// being the order in which the rotated files appeared
+#[derive(Default)]
+pub struct BgRec {
+    events: String,
+    seen: Vec<String>,
+    unmatched: usize,
+    last: std::collections::BTreeSet<String>,
+    ops: Vec<String>,
+    current: String,
+    dir: PathBuf,
+}
+static BGREC: Mutex<Option<BgRec>> = Mutex::new(None);
+pub static BGOBS_LINE: Mutex<Option<String>> = Mutex::new(None);
+
+fn bg_stem(n: &str) -> String { n.strip_suffix(".gz").unwrap_or(n).to_string() }
+fn bg_listing(r: &BgRec) -> std::collections::BTreeSet<String> {
+    std::fs::read_dir(&r.dir).map(|rd| rd.flatten().filter(|e| e.path().symlink_metadata().map_or(false, |m| m.is_file()))
+        .map(|e| e.file_name().to_string_lossy().to_string()).filter(|n| *n != r.current).collect()).unwrap_or_default()
+}
+fn bg_record(name: &str) {
+    let mut g = BGREC.lock().unwrap_or_else(std::sync::PoisonError::into_inner);
+    let Some(r) = g.as_mut() else { return };
+    let on_cleaner = std::thread::current().name().is_some_and(|n| n.contains("cleanup"));
+    match name {
+        "rename.after" if !on_cleaner => {
+            let now = bg_listing(r);
+            let mut fresh: Vec<String> = now.iter().map(|n| bg_stem(n)).filter(|st| !r.seen.contains(st)).collect();
+            fresh.sort();
+            fresh.dedup();
+            for st in fresh { r.seen.push(st); r.events.push('R'); r.unmatched += 1; }
+            r.last = now;
+        }
+        "cleanup.thread.send" => { if r.unmatched > 0 { r.unmatched -= 1; } else { r.events.push('K'); } }
+        "cleanup.thread.act" => { r.events.push('T'); r.last = bg_listing(r); }
+        "compress.removed" | "cleanup.remove.after" => {
+            let now = bg_listing(r);
+            let gone: Vec<String> = r.last.difference(&now).cloned().collect();
+            let rank = |n: &String| r.seen.iter().position(|s| *s == bg_stem(n)).map_or("?".to_string(), |p| p.to_string());
+            let op = match gone.as_slice() {
+                [n] => format!("{}{}", if name == "compress.removed" { 'c' } else { 'r' }, rank(n)),
+                other => format!("?{}", other.len()),
+            };
+            r.ops.push(op);
+            r.events.push('X');
+            r.last = now;
+        }
+        _ => {}
+    }
+}
+
 static BG_SENT: std::sync::atomic::AtomicUsize = std::sync::atomic::AtomicUsize::new(0);
 static BG_WINDOW: std::sync::atomic::AtomicBool = std::sync::atomic::AtomicBool::new(false);
 static BG_DONE: std::sync::atomic::AtomicUsize = std::sync::atomic::AtomicUsize::new(0);
@@ -759,6 +813,9 @@ fn execute_inner(ctx: &mut Ctx, lines: &[String]) -> Vec<String> {
             ["CFG", rest @ ..] if rest.len() == 5 => {
                 f.cfg = parse_cfg(rest);
                 f.w = None;
+                if let Some(r) = BGREC.lock().unwrap_or_else(std::sync::PoisonError::into_inner).as_mut() {
+                    r.current = f.current_path().file_name().map(|n| n.to_string_lossy().to_string()).unwrap_or_default();
+                }
                 "ok".into()
             }
             // logging continues: one more record is accepted and lands in a file (C10)
@@ -889,12 +946,35 @@ fn execute_inner(ctx: &mut Ctx, lines: &[String]) -> Vec<String> {
             //    to it exactly inside the next rotation of the main thread — after the file got its
             //    final name (3: before the new file is opened; 4: after it was opened, before the
             //    writer is replaced)
+            // the cleanup thread's protocol as observed (rewritten into `BGOBS k m <events>` for the
+            // `Bg` model): the file operations it performed, in order, and the rotated files left
+            ["BGTRACE"] => {
+                let mut g = BGREC.lock().unwrap_or_else(std::sync::PoisonError::into_inner);
+                let rc = f.cfg.rot.clone();
+                let usable = bg_adversarial && h.restarts == 0 && !h.reset_seen && f.spec.suffix.is_some()
+                    && rc.as_ref().map_or(false, |r| (r.naming == "num" || r.naming == "ts") && r.cleanup.is_some());
+                match (g.as_mut(), usable) {
+                    (Some(r), true) => {
+                        let (k, m) = rc.unwrap().cleanup.unwrap();
+                        let now = bg_listing(r);
+                        let fin: Vec<String> = r.seen.iter().enumerate().filter_map(|(i, st)| {
+                            if now.contains(st) { Some(format!("{i}p")) } else if now.contains(&format!("{st}.gz")) { Some(format!("{i}g")) } else { None }
+                        }).collect();
+                        *BGOBS_LINE.lock().unwrap() = Some(format!("BGOBS {k} {m} {}", if r.events.is_empty() { "-".to_string() } else { r.events.clone() }));
+                        ctx.report.count("bg.trace");
+                        ctx.report.add("bg.thread-ops", r.ops.len() as u64);
+                        format!("{}|{}", if r.ops.is_empty() { "-".to_string() } else { r.ops.join(",") }, if fin.is_empty() { "-".to_string() } else { fin.join(" ") })
+                    }
+                    _ => { *BGOBS_LINE.lock().unwrap() = Some("NOTE bgtrace-not-applicable".into()); "ok".into() }
+                }
+            }
             ["BGCLEAN", b] if *b == "3" || *b == "4" => {
                 f.bg_cleanup = true;
                 BG_SENT.store(0, std::sync::atomic::Ordering::SeqCst);
                 BG_DONE.store(0, std::sync::atomic::Ordering::SeqCst);
                 BG_WINDOW.store(false, std::sync::atomic::Ordering::SeqCst);
                 bg_adversarial = true;
+                *BGREC.lock().unwrap_or_else(std::sync::PoisonError::into_inner) = Some(BgRec { dir: dir.clone(), ..Default::default() });
                 let at: &'static str = if *b == "3" { "rot.infix_chosen" } else { "rot.opened" };
                 flexi_logger::verif_hooks::set_point_handler(Some(Arc::new(move |name| {
                     use std::sync::atomic::Ordering::SeqCst;
@@ -905,6 +985,7 @@ fn execute_inner(ctx: &mut Ctx, lines: &[String]) -> Vec<String> {
                         let t0 = std::time::Instant::now();
                         while !BG_WINDOW.load(SeqCst) && t0.elapsed() < patience { std::thread::sleep(std::time::Duration::from_micros(50)); }
                     }
+                    bg_record(name);
                     if name == at && BG_DONE.load(SeqCst) < BG_SENT.load(SeqCst) {
                         BG_WINDOW.store(true, SeqCst);
                         let t0 = std::time::Instant::now();
@@ -1255,6 +1336,7 @@ fn execute_inner(ctx: &mut Ctx, lines: &[String]) -> Vec<String> {
     let f_via_logger = f.via_logger;
     drop(f);
     if bg_any { flexi_logger::verif_hooks::set_point_handler(None); }
+    *BGREC.lock().unwrap_or_else(std::sync::PoisonError::into_inner) = None;
     flexi_logger::verif_hooks::set_virtual_now(None);
     flexi_logger::verif_hooks::set_fault_handler(None);
     if let Some(c) = CRASH_CHILD.lock().unwrap().as_ref() {
